@@ -112,8 +112,16 @@ claim("C09",
       TRUST + "; the reached call sites are compared with a syntactic inventory only as a vacuity guard",
       "symbolic execution over a symbolic file system with an open-mode/mutation monitor", "4.9")
 
+claim("C11",
+      "Fault mode: the read harnesses run with every well-formedness assumption dropped; each path must return or raise within "
+      "an unwinding bound derived from the request (a feasible path that exhausts it is solved for a concrete image and "
+      "replayed under a watchdog), the result is at most one unit longer than requested and every inflate call carries an "
+      "output cap of one allocation unit (replayed with a decompression bomb under zlib instrumentation). Reference walks "
+      "(Parallels snapshot chain, Hyper-V key-table entry walk, Hyper-V object tables) run on symbolic pointers/sizes.",
+      TRUST, "symbolic execution in fault mode with unwinding assertions + z3; watchdog replays", "4.11")
+
 PENDING = "check not built yet in this round (planned: see DESIGN.md section 4)"
-for _p in ("C11", "C14", "C15", "C17"):
+for _p in ("C14", "C15", "C17"):
     NOT_APPLICABLE[_p] = PENDING
 NOT_APPLICABLE["C16"] = ("the property's content (cstruct writers, AES-GCM, PBKDF2) sits behind C boundaries that would have "
                          "to be stubbed; nothing of the repository's own arithmetic would remain to be decided (DESIGN 5)")
